@@ -741,7 +741,30 @@ func (e *cauth) Oracle(c Case, impl []string) []Failure {
 		switch t[1] {
 		case "cfg":
 			o.cfgLine(t)
-		case "req":
+		case "batch":
+			// the calls of the batch happened, in some order, before what follows: what they were
+			// granted and which challenges they saw is known from here on (they are judged by batchOracle)
+			e.mu.Lock()
+			outs := e.batchOuts[caseKey(c)][i]
+			e.mu.Unlock()
+			for j, out := range outs {
+				if i+1+j >= len(c.Lines) {
+					break
+				}
+				a, ok := parseAuthReq(strings.Split(c.Lines[i+1+j], " "))
+				if !ok {
+					continue
+				}
+				oc := parseObsCall(i+1+j, a, out)
+				if oc.bad == "" {
+					o.noteGrants(k, &oc)
+					h := o.host(a.host)
+					h.noteChallenge(a.reg[0])
+					h.noteChallenge(a.reg[1])
+				}
+				k++
+			}
+		case "req", "areq":
 			a, ok := parseAuthReq(t)
 			if !ok {
 				continue
